@@ -1117,8 +1117,18 @@ class PageElement(object):
             matcher = SoupStrainer(name, attrs, string, **kwargs)
 
         result: Iterable[_OneElement]
+        if string is None and not attrs and not kwargs and name is None:
+            # No criteria at all: every tag matches, up to the limit.
+            result = []
+            for element in generator:
+                if isinstance(element, Tag):
+                    result.append(element)
+                    if limit and len(result) >= limit:
+                        break
+            return ResultSet(matcher, result)
+
         if string is None and not limit and not attrs and not kwargs:
-            if name is True or name is None:
+            if name is True:
                 # Optimization to find all tags.
                 result = (element for element in generator if isinstance(element, Tag))
                 return ResultSet(matcher, result)
